@@ -41,6 +41,7 @@ class LinearMeanGradGrad(Mean):
         res = x.matmul(self.weights)
         if self.bias is not None:
             res = res + self.bias.unsqueeze(-1)
-        dres = self.weights.expand(x.transpose(-1, -2).shape).transpose(-1, -2)
+        # ... x n x d (the batch shape of the weights may exceed that of x)
+        dres = self.weights.transpose(-1, -2).expand(*res.shape[:-1], self.dim)
         ddres = torch.zeros_like(dres)
         return torch.cat((res, dres, ddres), -1)
